@@ -123,7 +123,7 @@ var ruleEarlyExit = &Rule{
 			}
 		}
 		out.Counts["existence_shortcuts"] = n
-		out.Floors["existence_shortcuts"] = 8
+		out.Floors["existence_shortcuts"] = 3
 		return out
 	},
 }
